@@ -79,9 +79,9 @@ Note(kind, t, s) == [k |-> kind, t |-> t, safe |-> s.safe, unsafe |-> s.unsafe, 
 
 -----------------------------------------------------------------------------
 (* environment *)
-Arrive(t, src) ==            \* tx message ("TT" trusted, "UT" untrusted connection) or local submit ("LOC")
+Arrive(t, src) ==            \* tx message ("TT" trusted, "UT" untrusted connection; "TX"/"UX" inside an extended message) or local submit ("LOC")
   /\ arr < MaxArr /\ Len(q) < Cap
-  /\ q' = Append(q, [t |-> t, tr |-> src # "UT", safe |-> src = "LOC"])
+  /\ q' = Append(q, [t |-> t, tr |-> src \notin {"UT", "UX"}, safe |-> src = "LOC"])
   /\ arr' = arr + 1 /\ act' = A("Arrive", t, src)
   /\ UNCHANGED <<mp, idx, un, st, c, nblk, clock, dl, restarts, checks, aborted>>
 
@@ -220,7 +220,7 @@ Init ==
   /\ clock = 0 /\ dl = <<>> /\ arr = 0 /\ restarts = 0 /\ checks = 0 /\ aborted = FALSE /\ act = A("init", 0, "")
 
 Next ==
-  \/ \E t \in Tx, s \in {"TT", "UT", "LOC"} : Arrive(t, s)
+  \/ \E t \in Tx, s \in {"TT", "UT", "LOC", "TX", "UX"} : Arrive(t, s)
   \/ \E t \in Tx, s \in {"TT", "UT"} : Inv(t, s)
   \/ Tick \/ ConsumeA \/ ConsumeB \/ Checker \/ Restart
   \/ (Race \/ c.pc = "idle") /\ Block
